@@ -19,6 +19,8 @@ def run(ck):
     fresh.constructor_state(ck, "C20.R2")
     fresh.stored_buffer_is_private(ck, "C20.R4")
     routes.no_store_into_immutable(ck, "C20.R5")
+    routes.no_alias_writes(ck, "C20.R5")
+    routes.config_not_shared(ck, "C20.R2")
     fresh.config_validation(ck, "C20.R6")
     funcs.results_through_funnel(ck, "C02.R7")
     pipeline.store_pipeline(ck, "C01.R2", want_bounds=False)
